@@ -6,6 +6,7 @@ CONSTANTS
   MaxLines = 1
   MaxCols = 1
   MaxEdits = 3
+  MaxSize2 = 1
   MaxSize3 = 1
   Texts3 = 3
 INVARIANTS OrderIndependent
